@@ -104,6 +104,9 @@ func c12exec(line string) (string, []string, string, string) {
 			if strings.HasSuffix(path, ".json") && ct == "application/json" {
 				bodyStr = tilejsonProjection(body, meta, &viol)
 			}
+			if strings.HasSuffix(path, "/metadata") && ct == "application/json" && !bytes.Equal(body, meta) {
+				viol = append(viol, fmt.Sprintf("the metadata endpoint does not return the archive's JSON metadata unchanged: got %s, stored %s", trunc(string(body)), trunc(string(meta))))
+			}
 		} else if len(body) != 0 {
 			viol = append(viol, "HEAD response carries a body")
 		}
@@ -200,6 +203,9 @@ func c12(r *rng, tier string, o *out) {
 		h := Hdr{Version: 3, TileType: tt, TileComp: tc, MinZoom: minz, MaxZoom: maxz, MinLon: -int32(r.intn(1800000000)), MinLat: -int32(r.intn(850000000)),
 			MaxLon: int32(r.intn(1800000000)), MaxLat: int32(r.intn(850000000)), CenterZoom: minz, CenterLon: int32(r.intn(2000)) - 1000, CenterLat: -int32(r.intn(100000000))}
 		meta := canonJSON([]byte(fmt.Sprintf(`{"name":"n%d é","description":"d <x>","attribution":"© a","version":"1.%d","vector_layers":[{"id":"l","fields":{"a":"String"}}],"extra":{"k":[1,2,{"z":null}]}}`, c, c)))
+		if c%3 == 1 { // as a third-party writer may store it: keys unsorted, whitespace, HTML characters, an integer beyond 2^53, exponent notation
+			meta = []byte(fmt.Sprintf("{ \"zeta\": 1e2,\n  \"name\": \"n%d <b>&amp;</b>\", \"big\": 9007199254740993, \"attribution\": \"\u00a9 x\", \"vector_layers\": [ ] }", c))
+		}
 		if r.chance(20) {
 			meta = []byte(`{}`)
 		}
